@@ -46,6 +46,10 @@ def families(tier):
             # the same with an event that has no deadline at all (event_timeout=None is legitimate)
             main0 = [('disp', 'A', 'P', 'ff', {'timeout': None})] + main[1:]
             add('c09.tree', f'p1-{m1}-{m2}{b2}-n{int(nest)}-nodeadline', buses, hs, main0, par=par)
+            # ... and with the first handler dispatching only after its sibling has started (and again after the sibling returned)
+            hs1 = [dict(hs[0], prog=[('pause',)] + hs[0]['prog'] + [('pause',), ('disp', 'A', 'C3', 'ff')])] + hs[1:]
+            add('c09.tree', f'p1-{m1}-{m2}{b2}-n{int(nest)}-nodeadline-late', buses, hs1, main0, par=par)
+            add('c09.tree', f'p1-{m1}-{m2}{b2}-n{int(nest)}-late', buses, hs1, main, par=par)
     # family: forwarding of roots / children; handlers before and after the forward; explicit parents; self re-dispatch
     for topo, where, child, par in itertools.product(['AB', 'ABC', 'A>BC'], ['after', 'before'], ['none', 'ff', 'await'], (False, True)):
         names = ['A', 'B'] if topo == 'AB' else ['A', 'B', 'C']
